@@ -36,7 +36,7 @@ def sciOf (c : Cfg) (n : Number) : Int := scientificExponent c.mantissaRadix n.m
 digit bytes with a significant digit; a `Number` whose `mantissa`/`exponent` words put the leading digit where the
 digits and the explicit exponent put it (`value`); at most `d` significant digits or only zeros beyond; the capacity
 guard of `positive_digit_comp`; for a negative exponent a normalised estimate above the underflow cut with a finite
-round-down, and the capacity guard of `negative_digit_comp`. (`fp` is the **un-biased** estimate.) -/
+round-down — or one to `+∞` — and the matching capacity guard of `negative_digit_comp` (`NegFit`). (`fp` is the **un-biased** estimate.) -/
 structure SlowDomain (c : Cfg) (F : FTy) (p : Nat) (n : Number) (fp : ExtendedFloat80) (d : Nat) : Prop where
   env : EnvRadix (envOf c.feats) c.mantissaRadix
   maxd : (envOf c.feats).S.maxDigits F.fmt c.mantissaRadix = some d
@@ -56,8 +56,7 @@ structure SlowDomain (c : Cfg) (F : FTy) (p : Nat) (n : Number) (fp : ExtendedFl
       2 ^ (64 * (envOf c.feats).L.bigintLimbs)
   negSide : digitExponent (sciOf c n) (mantissaOf c.mantissaRadix d (sigBytes n.integer n.fraction)).2 < 0 →
     2 ^ 63 ≤ fp.mant ∧ fp.mant < 2 ^ 64 ∧ fp.exp < 2 ^ 20 ∧
-    C01Slow.roundedDown F fp < F.fmt.infBits ∧
-    NegGuard (envOf c.feats) F p c.mantissaRadix (mantissaOf c.mantissaRadix d (sigBytes n.integer n.fraction)).1 fp
+    NegFit (envOf c.feats) F p c.mantissaRadix (mantissaOf c.mantissaRadix d (sigBytes n.integer n.fraction)).1 fp
       (digitExponent (sciOf c n) (mantissaOf c.mantissaRadix d (sigBytes n.integer n.fraction)).2)
 
 theorem isFloat_of {F : FTy} (hF : IsLemireFloat F) : IsFloat F := hF
@@ -102,8 +101,8 @@ theorem slowModel_hslow {c : Cfg} {F : FTy} (hF : IsLemireFloat F) {p eb : Nat} 
     ⟨n.mantissa, n.exponent, n.integer, n.fraction⟩ { fp with exp := fp.exp - invalidFp }
     D.validInt D.validFrac D.nonempty D.bytes D.sciLo D.sciHi D.posGuard (by
       intro hneg
-      obtain ⟨a1, a2, a4, a5, a6⟩ := D.negSide hneg
-      refine ⟨a1, a2, a4, a5, ?_, a6⟩
+      obtain ⟨a1, a2, a4, a6⟩ := D.negSide hneg
+      refine ⟨a1, a2, a4, ?_, a6⟩
       -- the pipeline's bracket is the weak bracket of the value the slow path rounds
       unfold WeakBracket
       have hpf : ∀ (e : Int) (M : Nat), e < 0 →
